@@ -15,7 +15,12 @@ RULE = ('cases = (direct|reverse program from the grammar, input flags, '
         'schedule = base policy + <=k deviations, id salt); non-trivial = '
         'program has a fork/join/error route/guard/command/requires AND at '
         'some step >=2 events were enabled and the one taken was not the '
-        'FIFO head; distinct = hash(program, outcomes, input, choices taken)')
+        'FIFO head; distinct = hash(program, outcomes, input, choices taken). '
+        'Plus, for termination and error discipline only: the definitions '
+        'bundled in the repository (yaml files, documentation, unit-test '
+        'string constants) x guessed inputs of five JSON types x >=2 '
+        'schedules; non-trivial there = a run with >=2 events enabled at some '
+        'step and a non-FIFO choice taken')
 
 
 def check_case(case, stats=None, known=None):
@@ -58,7 +63,7 @@ def check_case(case, stats=None, known=None):
                      'detail': {'wf_state': root['state'],
                                 'tasks': [(t['name'], t['state'])
                                           for t in enginerun.tasks_of(res)]}})
-    for e in common.undeclared_errors(res):
+    for e in common.undeclared_errors(res, server=True):
         viol.append({'kind': 'undeclared-error',
                      'detail': {k: e.get(k) for k in
                                 ('type', 'msg', 'frame', 'where', 'label')}})
@@ -119,7 +124,39 @@ def shard_main(shard, nshards, seed, tier, opts):
     if fail:
         fail['scheduler'] = sched_type
         failures.append(fail)
+    if not failures:
+        failures.extend(bundled_phase(shard, nshards, seed, tier, st,
+                                      sched_type))
     return {'stats': st.to_dict(), 'failures': failures}
+
+
+def bundled_phase(shard, nshards, seed, tier, st, sched_type):
+    """Termination and error discipline (layers 1 and 2 of the oracle) over
+    the definitions bundled in the repository: hand-written workflows that
+    use features outside the generator's grammar (dynamic action / workflow
+    names, ad-hoc actions, nested with-items, policies by expression...).
+    No reference verdict exists for them, so layer 3 is not asserted."""
+    from mv.props import bundledrun as R
+    keep, hist = R.corpus('c01')
+    if shard == 0:
+        st.counters.update(hist)
+        st.counters['bundled_corpus'] += len(keep)
+    variants = [R.VARIANTS[0],
+                ('shuffle-s', {'policy': 'shuffle', 'seed': seed * 13 + 5},
+                 False, 4)]
+    if tier == 'thorough':
+        variants = list(R.VARIANTS) + [
+            ('shuffle-t%d' % i, {'policy': 'shuffle', 'seed': seed * 100 + i},
+             i % 2 == 1, 20 + i) for i in range(6)]
+    for i, e in enumerate(keep):
+        if i % nshards != shard:
+            continue
+        fails = R.check_entry(e, st, variants=variants, compare=False)
+        if fails:
+            for f in fails:
+                f['scheduler'] = sched_type
+            return fails[:1]
+    return []
 
 
 def replay(path):
@@ -127,6 +164,9 @@ def replay(path):
     f = common.replay_case(path)
     sim.boot(f.get('scheduler', 'default'))
     case = f['case']
+    if 'bundled' in case:
+        from mv.props import bundledrun as R
+        return R.replay_case(case)
     case['sched'] = {'recorded': f['violations'][0].get('sched_taken')} \
         if f['violations'][0].get('sched_taken') else case['sched']
     st = runner.Stats()
